@@ -22,6 +22,7 @@ CLAIM = (
     "read on the unchanged tree (baselines/skips.json): a new skip means elements that were handled are no longer handled."
     " LIT-KW: duplicate_curly_brackets / in_backticks / without_enclosing are passed to a literal function only inside "
     "transform_joined_str (a stand-alone literal emitted with them denotes another text)."
+    " ARG-USED: in the meta-model parser every optional argument node (locals typed Optional[ast.X] that start as None) is, on every CFG path to a successful return, either known to be None or read by more than a type/None test - an argument of constant_set(...) that is present but of an unexpected node kind is rejected, not ignored."
 )
 NOTE = (
     "Shared with C19: the CHR rule is run here on python string_literal (it decides that the literal denotes its argument). Not decided: the run-time values of the generated "
@@ -176,6 +177,11 @@ def run(ctx) -> None:
         if _m.name in ("aas_core_codegen.python.lib._generate_constants", "aas_core_codegen.python.lib._generate_stringification"):
             for _f in _m.functions.values():
                 _skips.check_skips(ctx, _f, "SKIPS", _base)
+    # what the author wrote as arguments of constant_set(...) / constant(...) reaches the parsed constant or is rejected
+    ctx.rule("ARG-USED", "optional argument nodes of the meta-model parser are consumed or rejected on every path to a successful return", floor=10)
+    from ..rules import argused as _argused
+    for _f in ctx.p.module("aas_core_codegen.parse._translate").functions.values():
+        _argused.check_arg_used(ctx, _f, "ARG-USED")
     ctx.rule("LIT-KW", "interpolation-only options of the literal functions are used only for parts of interpolated strings", floor=4)
     from ..rules import litkw as _litkw
     _litkw.check_literal_keywords(ctx, "LIT-KW")
